@@ -767,3 +767,21 @@ def o_model_periodic(case, obs):
                 if fired_by.get((inp, pay, tt), 10**9) > j:
                     return "cmd %d returned at time %d before the occurrence at %d of the series (input %d, period %d) had run" % (j - 1, t, tt, inp, p)
     return None
+
+
+def o_rearm_order(case, obs):
+    """C07 (family gen_periodic_rearm): at every time where an occurrence of the periodic series (input 1) and the
+    one-shot scheduled by the previous occurrence (input 0) are both due, the occurrence runs first: it was re-armed
+    when the previous occurrence was pulled, before that occurrence's handler scheduled the one-shot."""
+    if "rearm" not in case.get("tags", ()):
+        return None
+    by_time = {}
+    for j, (res, t, es) in enumerate(obs):
+        for e in es:
+            f = e.split(":")
+            if f[0] == "H" and int(f[2]) in (0, 1):
+                by_time.setdefault(int(f[4]), []).append(int(f[2]))
+    for t, inputs in sorted(by_time.items()):
+        if 0 in inputs and 1 in inputs and inputs.index(0) < inputs.index(1):
+            return "at time %d the one-shot scheduled by the previous occurrence ran before the periodic occurrence due at the same time (inputs in order: %s)" % (t, inputs)
+    return None
